@@ -5,7 +5,10 @@ preserving one} for every operator on grade-block key patterns (valid in all mod
 combination must return the element the default options return.  In graded mode every operation that
 succeeds in the default mode must succeed and every result must store complete grades.
 The theorem side: the generated polynomial is independent of the coefficient structure used for code
-generation (naturality, Props/C13.v); the printers/builders the options select are glue validated here."""
+generation (naturality, Props/C13.v); the printers/builders the options select are glue validated here.
+Clause generated-code (tools/genvalidate.py, Model/Slp.v, Theory/Slp.v): the TEXT of the generated function - whatever cse /
+graded / symbol class printed it - is parsed into a straight-line program and validated by Coq on indeterminates against the
+model operator; one `true` holds for all inputs in all commutative rings (C13_generated_code_all_inputs)."""
 import warnings, itertools
 from fractions import Fraction
 import kv, algs, opcorr as oc
@@ -13,8 +16,20 @@ import kv, algs, opcorr as oc
 RULE = ('option combinations {cse} x {graded} x {symbolcls} x {wrapper} (16) x signatures d<=2 (all) and d=3 (sampled) x operators '
         '(29, incl. composite/inverse/series) x grade-block operands (random grades, Fraction values; floats for sqrt); each case = one '
         'operator call under one option combination compared with the default options.  Non-trivial = non-default options and a '
-        'non-empty result; distinct = distinct (signature, options, operator, grades).')
-TRUSTED = ['kingdon with default options is the reference; the model enters through the naturality theorem only']
+        'non-empty result; distinct = distinct (signature, options, operator, grades).  '
+        'Clause generated-code: random algebras d = 1..4 (every signature incl. degenerate, start index, custom bases, 2DPGA/3DPGA) x '
+        '{cse} x {graded} x {symbolcls default/sympy} x operators gp op ip lc rc sp cp acp rp add sub sw proj neg reverse involute '
+        'conjugate hodge unhodge normsq x random key patterns in random storage order (grade blocks in graded mode): the source text '
+        'of the generated function (checked to compile to the code object that runs) is translated to an SLP and '
+        '`validate (model op A) keys_in keys_out program` is evaluated by Coq on polynomial indeterminates (exact level: same keys, '
+        'same order, == polynomials; sw proj normsq: blade by blade, absent = 0) - each case holds for ALL inputs.  A failed '
+        'validation is reported only with a concrete integer input on which the real function and the model differ blade by '
+        'blade; a mere difference of stored keys is a fidelity note.  Non-trivial = non-empty result; distinct = distinct '
+        '(algebra, options, operator, key tuples).')
+TRUSTED = ['kingdon with default options is the reference; the model enters through the naturality theorem only',
+           'clause generated-code: tools/genvalidate.py (python ast -> SLP of Model/Slp.v, ~100 lines, fail closed; the text is checked '
+           'to compile to the code object the function runs) and python evaluating + - * ** unary-minus on numbers as the ring '
+           'operations; sympy.cse, the sympy printer and KingdonPrinter are NOT trusted for a validated function']
 ASSUMPTIONS = ['Fraction arithmetic exact; results involving sqrt / float constants compared to 1e-9 relative']
 
 OPS2 = ['gp', 'sw', 'cp', 'acp', 'ip', 'sp', 'lc', 'rc', 'op', 'rp', 'proj', 'add', 'sub', 'div']
@@ -180,9 +195,16 @@ def run(R, tier):
                 vals = ([rng.randint(-5, 5) or 1 for _ in alg.indices_for_grades[gx]], [rng.randint(-5, 5) or 2 for _ in alg.indices_for_grades[gy]])
             X = alg.multivector(list(vals[0]), grades=gx); Y = alg.multivector(list(vals[1]), grades=gy)
             for op, f, comp in (('sw', lambda a, b: a >> b, lambda a, b: a * b * ~a), ('proj', lambda a, b: a @ b, lambda a, b: (a | b) * ~b)):
-                r = f(X, Y); c = comp(X, Y)
-                outs[oname, op] = [(int(k), v) for k, v in zip(r.keys(), r.values())]
                 R.count('options:wide-4d:' + oname); R.case(('wide4d', tuple(sig), oname, op, gx, gy), True)
+                try:
+                    r = f(X, Y); c = comp(X, Y)
+                except Exception as e:  # noqa  (a generated function that raises: NameError of a lost cse assignment, ...)
+                    R.violation({'clause': 'fails-under-options', 'graded': False, 'null_generator': False, 'cse': 'cse' not in opts},
+                                {'signature': sig, 'options': oname, 'op': op, 'grades': [list(gx), list(gy)], 'values': [list(vals[0]), list(vals[1])],
+                                 'got': f'{type(e).__name__}: {e}'[:200]},
+                                f'{op} of grades {gx} on grades {gy} in Algebra(signature={sig}) with {oname} raises {type(e).__name__}: {str(e)[:120]}')
+                    continue
+                outs[oname, op] = [(int(k), v) for k, v in zip(r.keys(), r.values())]
                 if not same(outs[oname, op], [(int(k), v) for k, v in zip(c.keys(), c.values())]):
                     R.violation({'clause': 'differs-under-options', 'graded': False, 'null_generator': False, 'cse': 'cse' not in opts},
                                 {'signature': sig, 'options': oname, 'op': op, 'grades': [list(gx), list(gy)], 'values': [list(vals[0]), list(vals[1])]},
@@ -228,9 +250,138 @@ def run(R, tier):
                     f'graded mode: {m["op"]} of {m["x"]}, {m["y"]} in Algebra({algs.describe(m["spec"])}) returns {m["impl"]}, '
                     f'Model/Graded.v (complete grades, default-mode coefficients) gives {shown.get(i)}')
 
+    # ---- clause generated-code: translation validation of the text kingdon generates (all inputs per function) ----
+    generated_code(R, tier)
 
-REPLAY_BY_RERUN = True      # inputs derive from the seed recorded in the replay file: the recorded run is regenerated
+
+def gen_spec(rng):
+    d = rng.choice((1, 2, 2, 3, 3, 3, 4, 4, 4))
+    r = rng.random()
+    if r < 0.05 and d >= 3:
+        return {'fromname': '2DPGA' if d == 3 else '3DPGA'}
+    sig = [rng.choice((1, -1, 0)) for _ in range(d)]
+    if r < 0.25:
+        return {'sig': sig, 'basis': algs.random_basis(rng, d)}
+    return {'sig': sig, 'start': rng.choice((None, 0, 1))}
+
+
+def generated_code(R, tier):
+    import sympy
+    import genvalidate as gv
+    rng = R.rng
+    pool = algs.AlgPool()
+    cases = []
+    ops = list(gv.BIN) + list(gv.UN)
+    n = 150 if tier == 'quick' else 3000
+    for it in range(n):
+        spec = gen_spec(rng)
+        graded = rng.random() < 0.25 and 'fromname' not in spec
+        if graded:
+            spec = dict(spec, graded=True)
+        cse = rng.random() < 0.55
+        if it < 2 * len(ops):
+            op = ops[it % len(ops)]                 # every operator at least twice
+        else:                                       # sympy.cse only finds something in the composites: a third of the functions
+            op = rng.choice(gv.COMPOSITE) if rng.random() < 0.33 else rng.choice(ops)
+        sym = rng.random() < 0.15
+        opts = {'cse': cse}
+        if sym:
+            opts['codegen_symbolcls'] = sympy.Symbol
+        alg = algs.make_impl(spec, **opts)       # a fresh algebra: the function is generated now
+        d = alg.d
+        if sym and op in gv.COMPOSITE and d >= 4:
+            continue                              # seconds of sympy per function
+        ar = 2 if op in gv.BIN else 1
+        if graded:
+            keys = [tuple(alg.indices_for_grades[tuple(sorted(rng.sample(range(d + 1), rng.randint(1, d + 1))))]) for _ in range(ar)]
+        else:
+            keys = [oc.random_keys(rng, alg)[0] for _ in range(ar)]
+        oname = {'cse': cse, 'graded': graded, 'symbolcls': 'sympy' if sym else 'default'}
+        R.count(f'generated-code:d={d}'); R.count('generated-code:op=' + op); R.count(f'generated-code:cse={cse}')
+        R.count(f'generated-code:graded={graded}'); R.count('generated-code:basis=' + algs.kind(spec))
+        try:
+            c = gv.case(pool, spec, alg, op, keys, oname)
+        except gv.Untranslatable as e:
+            # fail closed: not validated, not a violation (the sampled comparisons above still cover the function)
+            R.count('generated-code:untranslated'); R.count(f'generated-code:untranslated:{op}:{str(e)[:60]}')
+            R.notes.append(f'generated-code: {op} {keys} in Algebra({algs.describe(spec)}) {oname} is outside the translated subset: {e}')
+            continue
+        m = c['meta']
+        R.count('generated-code:validated-functions'); R.count('generated-code:level=' + m['level'])
+        if m['lets']:
+            R.count('generated-code:with-cse-assignments')
+        R.case(('generated-code', algs.describe(spec), tuple(sorted(oname.items())), op, tuple(keys)), bool(m['keys_out']),
+               sample={'clause': 'generated-code', 'algebra': algs.describe(spec), 'options': oname, 'op': op,
+                       'keys_in': m['keys_in'], 'keys_out': m['keys_out'], 'source': m['source'][:400]})
+        cases.append(c)
+    bad, _ = kv.run_cases('C13gen', cases, prelude=gv.PRELUDE, imports=gv.IMPORTS, shard=40)
+    if not bad:
+        return
+    # a validation failed: exhibit a concrete integer input on which the real function and the model differ
+    wcases, owner = [], []
+    for i in bad:
+        m = cases[i]['meta']
+        for j in range(24):
+            hi = 2 if j < 8 else (9 if j < 16 else 60)
+            inputs = [[(rng.randint(-hi, hi) or 1) for _ in ks] for ks in m['keys_in']]
+            wcases.append(gv.concrete_case(pool, m, inputs)); owner.append(i)
+    wbad, wshown = kv.run_cases('C13genw', wcases, prelude=gv.PRELUDE, imports=gv.IMPORTS, shard=48)
+    first = {}
+    for w in wbad:
+        first.setdefault(owner[w], w)
+    need = [w for w in list(first.values())[:8] if w not in wshown and wcases[w].get('show')]   # only the first replays are kept
+    if need:                                    # the model's value on the witness (run_cases shows only the first few)
+        defs = sorted({dfn for w in need for dfn in wcases[w]['defs']})
+        outs = kv.eval_terms('C13genw', [wcases[w]['show'] for w in need], prelude=gv.PRELUDE + '\n'.join(defs), imports=gv.IMPORTS)
+        if len(outs) == len(need):
+            wshown.update({w: o[-1500:] for w, o in zip(need, outs)})
+    for i in bad:
+        m = cases[i]['meta']
+        cls = {'clause': 'generated-code', 'op': m['op'], 'cse': m['options'].get('cse'), 'graded': m['options'].get('graded'),
+               'symbolcls': m['options'].get('symbolcls'), 'null_generator': 0 in algs.norm(_named(m['spec']))['sig']}
+        if i not in first:
+            # same coefficient on every blade at every point tried: only the stored keys / their order differ from the model
+            R.fidelity_notes += 1
+            R.notes.append(f'generated-code: {m["op"]} {m["keys_in"]} in Algebra({algs.describe(m["spec"])}) {m["options"]}: stored keys '
+                           f'{m["keys_out"]} differ from the model\'s, coefficients agree')
+            continue
+        w = first[i]
+        wm = wcases[w]['meta']
+        R.violation(cls, {'algebra': m['spec'], 'options': m['options'], 'op': m['op'], 'keys_in': m['keys_in'], 'keys_out': m['keys_out'],
+                          'source': m['source'], 'inputs': wm['inputs'], 'impl_output': wm['output'], 'model': wshown.get(w)},
+                    f'generated code of {m["op"]} for keys {m["keys_in"]} in Algebra({algs.describe(m["spec"])}) with {m["options"]} does not '
+                    f'compute the model operator: on coefficients {wm["inputs"]} the generated function returns {wm["output"]} for keys '
+                    f'{m["keys_out"]}, the model gives {str(wshown.get(w))[-300:]}; text: {m["source"][:300]!r}')
+
+
+def _named(spec):
+    if 'fromname' in spec:
+        return {'pqr': algs.NAMED[spec['fromname']][0]}
+    return spec
+
+
+def replay_generated(rec):
+    """self-contained replay of a generated-code record: regenerate the function, run it on the recorded input,
+    compare blade by blade with the model evaluated by Coq.  True = agrees."""
+    import sympy
+    import genvalidate as gv
+    r = rec['replay']
+    spec, o = r['algebra'], r['options']
+    opts = {'cse': o.get('cse', True)}
+    if o.get('symbolcls') == 'sympy':
+        opts['codegen_symbolcls'] = sympy.Symbol
+    alg = algs.make_impl(spec, **opts)
+    pool = algs.AlgPool()
+    keys_out, func, src = gv.generate(alg, r['op'], r['keys_in'])
+    meta = {'spec': spec, 'op': r['op'], 'keys_in': r['keys_in'], 'keys_out': list(keys_out), 'func': func, 'level': 'coefficient'}
+    bad, _ = kv.run_cases('C13genr', [gv.concrete_case(pool, meta, r['inputs'])], prelude=gv.PRELUDE, imports=gv.IMPORTS)
+    return not bad
+
+
+REPLAY_BY_RERUN = False     # generated-code records are self-contained; every other record is replayed by regenerating the recorded run (same seed)
 
 
 def replay(R, rec):
+    if (rec.get('class') or {}).get('clause') == 'generated-code' and 'inputs' in (rec.get('replay') or {}):
+        return replay_generated(rec)
     return kv.replay_by_rerun(__import__('sys').modules[__name__], rec['property'], rec)
